@@ -230,6 +230,10 @@ func (x *world) open() error {
 	}
 	x.noteClient()
 	x.client = simchain.NewClient(x.node, x.birthday, int(x.p.C("queue_buf", 20)))
+	x.client.Dialect = []string{"", "bitcoind", "bitcoind28", "btcd", "btcd-legacy"}[int(uint64(x.p.C("dialect", 0))%5)]
+	if x.client.Dialect != "" {
+		x.env.Count("probe.backend-dialect." + x.client.Dialect)
+	}
 	x.client.AsyncRescan = x.p.C("async_rescan", 0) == 1
 	x.client.BtcdStyleRescan = x.p.C("btcd_rescan", 0) == 1
 	for _, k := range core.SortedKeys(x.pendingFail) {
